@@ -914,9 +914,11 @@ class Atoms:
 
         if self.cell is not None:
             a, b, c, alpha, beta, gamma = self.cell_abc_alpha_beta_gamma()
-            block['_cell_length_a'] = a
-            block['_cell_length_b'] = b
-            block['_cell_length_c'] = c
+            # lengths are recomputed from the cell vectors; rounding keeps floating point noise
+            # (e.g. 14.000000000000002) out of the file so that re-saving a loaded CIF is stable.
+            block['_cell_length_a'] = round(a, 6)
+            block['_cell_length_b'] = round(b, 6)
+            block['_cell_length_c'] = round(c, 6)
             block['_cell_angle_alpha'] = "%.4f" % alpha
             block['_cell_angle_beta']  = "%.4f" % beta
             block['_cell_angle_gamma'] = "%.4f" % gamma
